@@ -27,7 +27,7 @@ type tracker interface {
 }
 
 func newTracker(enc auditevent.EventEncoder) tracker {
-	return sessiontracker.NewSessionTracker(auditevent.NewAuditEventWriter(enc), nil)
+	return sessiontracker.NewSessionTracker(auditevent.NewAuditEventWriter(enc), runLogger)
 }
 
 // L1Op is one delivery to the correlator.
